@@ -61,13 +61,13 @@ Proof. exact adjust_refused_unchanged. Qed.
 
 Theorem C04_cseq : forall buf offs s, offs <= nnat (length buf) -> cs_inv offs s ->
   match parse_cseq buf offs s with
-  | Done o e s' => o <= nnat (length buf) /\ cs_inv (nnat (length buf)) s' /\ (e = EMore -> offs <= o /\ cs_inv o s') /\ (e = EOk -> offs <= o)
+  | Done o e s' => o <= nnat (length buf) /\ cs_inv (nnat (length buf)) s' /\ (e = EMore -> offs <= o /\ cs_inv o s') /\ (e = EOk -> offs <= o /\ cs_inv o s')
   | _ => False
   end.
 Proof. exact cseq_safe. Qed.
 Theorem C04_first_line : forall buf offs s, offs <= nnat (length buf) -> fl_inv offs s ->
   match parse_fline buf offs s with
-  | Done o e s' => o <= nnat (length buf) /\ fl_inv (nnat (length buf)) s' /\ (e = EMore -> offs <= o /\ fl_inv o s') /\ (e = EOk -> offs <= o)
+  | Done o e s' => o <= nnat (length buf) /\ fl_inv (nnat (length buf)) s' /\ (e = EMore -> offs <= o /\ fl_inv o s') /\ (e = EOk -> offs <= o /\ fl_inv o s')
   | _ => False
   end.
 Proof. exact fline_safe. Qed.
